@@ -35,7 +35,15 @@ func genC04(g *Gen) *Plan {
 			}
 		}
 	}
-	p.Configs = []Config{baseConfig(1000, "1s", store)}
+	size := 1000
+	if store != "" && g.p(0.5) {
+		// evict + reload through a store that enforces its TTL exactly, late or never:
+		// pike's own expiry check must hold for what it reads back
+		size = 8
+		p.ShardMode = "one"
+		p.StoreTTL = pick(g, "exact", "late", "never")
+	}
+	p.Configs = []Config{baseConfig(size, "1s", store)}
 	seq := g.p(0.5)
 	if seq {
 		p.Sequential = true
@@ -45,7 +53,7 @@ func genC04(g *Gen) *Plan {
 		p.ClockWeight = pick(g, 0.0, 0.05, 0.15)
 	}
 	keys := []string{"/t0"}
-	if g.p(0.3) {
+	if g.p(0.3) || size == 8 {
 		keys = append(keys, "/t1")
 	}
 	p.Scripts = map[string][]Reply{}
@@ -178,7 +186,12 @@ func oracleC04(o *Outcome) []Violation {
 			}
 		}
 		// stale replay: a newer cacheable fetch of the key was installed before this request began
+		// (with an LRU smaller than the working set two fetches of one key can run on two entry
+		// objects and be persisted in either order: asserted only when nothing is evicted)
 		for _, u2 := range o.Hist.Ups {
+			if o.Plan.Configs[0].Caches[0].Size < 1000 {
+				break
+			}
 			if u2.Key != r.Key || u2.Serial <= u.Serial || !u2.Shareable || u2.Verdict.Ambiguous || u2.Req < 0 {
 				continue
 			}
